@@ -96,7 +96,13 @@ pub fn check_op<S: Src>(bytes: [u8; 3], tmpl: &[u8], texec: &[u8], tlen: usize, 
   let (op2, len2, _) = crate::decoder::decode(&bytes);
   let emitter = crate::emitter::Emitter::new(MEMPTR as *const MemoryAreas);
   let mut buf = [0u8; 512];
+  // The emitted code must be right for EVERY memory state at run time, whatever memory held when the block was translated
+  // (bank switches, RAM writes): translate under an independent arbitrary bus, then restore the run-time one.
+  let run_time_bus = bus::save();
+  bus::setup(s);
   let written = emitter.encode_op(op2, len2, &mut buf);
+  bus::restore(run_time_bus);
+  bus::reset_log();
   let mut regs = [0u64; 16];
   let mut i = 0;
   while i < 16 { regs[i] = s.u64(); i += 1; }
